@@ -163,6 +163,19 @@ CLAIMED = {
    note=("partial: 'the stub parses as Python' and the placement/decorator clauses are observed with CPython's parser on generated modules; "
          "Lean proves the parameter-list round trip on tokens (text lexing is the harness's)"),
    technique="Lean 4 proof (induction over the parameter list with the renderer's and parser's state machines) + differential correspondence + ast/inspect oracle"),
+ "C11": dict(
+   text=("A Lean 4 model of RenderAnnotation (to an expression tree and its text), get_imports_for_annotation and the naming of the TypedDict "
+         "classes ReplaceTypedDictsWithStubs generates, with theorems about the rendering shapes (Optional iff NoneType is a member, "
+         "Tuple[()]) and that no class stub is generated for a TypedDict-free type (no_td_no_classes; with C06: none at limit 0). The property "
+         "itself — the annotation text, evaluated with only the names the stub provides, yields the rendered type — is a stated Lean "
+         "proposition (RenderedDenotes) that is NOT proved: it is evaluated directly on every generated stub (import block really executed "
+         "in an empty namespace, TypedDict class stubs registered, each annotation evaluated and compared structurally). The model is tied "
+         "to /repo by comparing annotation text, import sets and generated class names. Three genuine defects of the pinned tree are open "
+         "known findings whose predicates are decided by the Lean model."),
+   ref="DESIGN.md section 4 C11",
+   note=("partial (weakest of the proof-level claims): Lean proves shape lemmas only; the denotation clause is a direct check on the implementation; "
+         "open findings: KF-C11-td-field-names, KF-C11-td-class-name-collision, KF-C11-same-name-two-modules"),
+   technique="Lean 4 model + shape theorems; executable correspondence (text, imports, class names); direct evaluation of generated stubs"),
 }
 
 NOT_YET = "check not built yet (build in progress; see DESIGN.md section 10)"
